@@ -53,6 +53,8 @@ HOLDING_HARNESSES = [
     # wall limit (tried: > 1 h); the symbolic-rate formula is covered by holding-1 in both tiers
     holding("holding-2", {"maxheld": 2, "fixrates": 1}, {"maxheld": 2, "fixrates": 1}),
 ]
+RESTARTCHAIN = {"id": "restart-chain", "func": "VerifRestartChain", "pkg": NODE, "pkgname": "node", "load": ["./node"],
+             "params": {"quick": {}, "thorough": {}}, "must_cover": ["restarted", "no-restart"], "max_witness_replays": 4}
 SYNCBLOCKFAULT = {"id": "syncblock-fault", "func": "VerifSyncBlockFault", "pkg": NODE, "pkgname": "node", "load": ["./node"],
              "params": {"quick": {}, "thorough": {}}, "must_cover": ["reference-applied", "fault-failed-block", "fault-ended-process"], "max_witness_replays": 4}
 APIREADS = {"id": "api-reads", "func": "VerifAPIReads", "pkg": "srv", "pkgname": "srv", "load": ["./srv"],
@@ -101,8 +103,10 @@ PROPS = {
     },
     "C04": {
         "asserts": ["C04.", "uncaught-panic"],
-        "harnesses": BATCH_HARNESSES + HOLDING_HARNESSES,
-        "bounds": {"quick": "as C03 (same harness, supply/recipient assertions)", "thorough": "as C03"},
+        "harnesses": BATCH_HARNESSES + HOLDING_HARNESSES + [
+            {"id": "scheduled", "func": "VerifScheduled", "pkg": NODE, "pkgname": "node", "load": ["./node"],
+             "params": {"quick": {}, "thorough": {}}, "must_cover": ["nullify-mint"], "max_witness_replays": 2}],
+        "bounds": {"quick": "as C03 (same harness, supply/recipient assertions); the one-time burn of the minted remainder", "thorough": "as C03"},
         "assumptions": BATCH_ASSUMPTIONS,
     },
     "C17": {
@@ -165,6 +169,7 @@ PROPS = {
              "params": {"quick": {"period": 3, "heights": 6}, "thorough": {"period": 4, "heights": 9}},
              "must_cover": ["three-or-more-rated", "few-rated"], "max_witness_replays": 4},
             dict(GRADEGLUE, id="grade-glue-order", replay_mode="order", native_repeat=24, max_witness_replays=3),
+            MULTIFETCH,
         ],
         "wall": {"quick": 400, "thorough": 3000},
         "bounds": {"quick": "(process history) the averaging cache of a daemon that lived through the chain vs one restarted before any rated block, as C09; order oracle = any permutation of one map iteration or one unstable sort per run (deviation budget 1); supply set with <=2 requests; SnapshotPayouts with 2 eligible stakers (1 asset, concrete rates, symbolic balances incl. exact ties)",
@@ -239,8 +244,9 @@ PROPS = {
             {"id": "averages", "func": "VerifAverages", "pkg": NODE, "pkgname": "node", "load": ["./node"],
              "params": {"quick": {"period": 3, "heights": 6}, "thorough": {"period": 4, "heights": 9}},
              "must_cover": ["three-or-more-rated", "few-rated"], "max_witness_replays": 6},
+            RESTARTCHAIN,
         ],
-        "bounds": {"quick": "averaging period P=3 (package variable; the code is uniform in P, mainnet uses 288), chain of 6 heights (starting at height 1, or straddling the PIP-10 activation height) with every rated/unrated pattern, 2 assets (one appearing later), rates symbolic in [1, 2^40]; a restarted daemon is compared at EVERY rated block (so every set of restart heights)",
+        "bounds": {"quick": "averaging period P=3 (package variable; the code is uniform in P, mainnet uses 288), chain of 6 heights (starting at height 1, or straddling the PIP-10 activation height) with every rated/unrated pattern, 2 assets (one appearing later), rates symbolic in [1, 2^40]; a restarted daemon is compared at EVERY rated block (so every set of restart heights); plus a 3-block chain with content (graded / ungraded with entries / graded) synced through the real SyncBlock by one daemon and by daemons restarted at any subset of the block boundaries",
                    "thorough": "P=4, 9 heights"},
         "assumptions": ["all other consensus inputs are read from the database (checked by reading SyncBlock: rates, holding, balances, bank, snapshots go through SQL); the rolling-average cache is the only in-memory state that influences results",
                         "rates are non-zero (a recorded 0 counts as missing in both paths alike)"],
@@ -254,6 +260,7 @@ PROPS = {
             {"id": "validate", "func": "VerifValidate", "pkg": "fat/fat2", "pkgname": "fat2", "load": ["./fat/fat2"],
              "params": {"quick": {"maxtx": 2, "maxout": 2}, "thorough": {"maxtx": 3, "maxout": 2}},
              "must_cover": ["accepted", "rejected"], "max_witness_replays": 6},
+            TXBLOCK_HARNESSES[0],
             {"id": "tx-decode", "func": "VerifTxDecode", "pkg": "fat/fat2", "pkgname": "fat2", "load": ["./fat/fat2"],
              "params": {"quick": {"maxmembers": 4}, "thorough": {"maxmembers": 5}},
              "must_cover": ["canonical", "not-canonical"], "max_witness_replays": 8},
@@ -371,7 +378,7 @@ PROPS = {
         "harnesses": [
             {"func": "VerifConvert", "pkg": CONV, "pkgname": "conversions", "load": ["./node/conversions"],
              "must_cover": ["specified-error", "overflow-error", "converted-pip10", "converted-legacy"]},
-        ] + HOLDING_HARNESSES + TXBLOCK_HARNESSES[:1] + [SYNCBLOCK],
+        ] + HOLDING_HARNESSES + TXBLOCK_HARNESSES[:1] + [SYNCBLOCK, BATCH_HARNESSES[1], RESTARTCHAIN],
         "bounds": {"quick": "Convert: amount int64, four rates uint64, height uint32 - full ranges, no loop"},
         "assumptions": ["math/big modelled as mathematical integers (Div/Quo by q,r form)"],
     },
